@@ -60,11 +60,29 @@ class lake_lock:
         self.f.close()
 
 
+_DRIVER_SNAPSHOT: Optional[Path] = None
+
+
 def lake_build(targets: list[str], timeout: int = 3000) -> tuple[bool, str]:
-    """`lake build <targets>` under a file lock.  Returns (ok, output)."""
+    """`lake build <targets>` under a file lock.  Returns (ok, output).
+    When the driver was built, a private copy of the binary is taken while the lock is
+    still held: another check relinking the shared binary must not pull it from under us."""
+    global _DRIVER_SNAPSHOT
     with lake_lock():
         p = subprocess.run(["lake", "build", *targets], cwd=LEAN, text=True,
                            capture_output=True, timeout=timeout)
+        if p.returncode == 0 and "driver" in targets and DRIVER.exists():
+            import atexit
+            import shutil
+            import tempfile
+            fd, name = tempfile.mkstemp(prefix="dashlive-driver-")
+            os.close(fd)
+            shutil.copy2(DRIVER, name)
+            os.chmod(name, 0o755)
+            if _DRIVER_SNAPSHOT is not None:
+                _DRIVER_SNAPSHOT.unlink(missing_ok=True)
+            _DRIVER_SNAPSHOT = Path(name)
+            atexit.register(lambda n=name: Path(n).unlink(missing_ok=True))
     out = p.stdout + p.stderr
     return p.returncode == 0, out
 
@@ -220,7 +238,8 @@ def run_driver(lines: list[str], timeout: int = 600) -> list[str]:
         return []
     for ln in lines:
         assert "\n" not in ln
-    p = subprocess.run([str(DRIVER)], input="\n".join(lines) + "\n", text=True,
+    exe = _DRIVER_SNAPSHOT if _DRIVER_SNAPSHOT is not None and _DRIVER_SNAPSHOT.exists() else DRIVER
+    p = subprocess.run([str(exe)], input="\n".join(lines) + "\n", text=True,
                        capture_output=True, timeout=timeout)
     if p.returncode != 0:
         raise RuntimeError(f"driver exited {p.returncode}: {p.stderr[:300]}")
